@@ -469,6 +469,10 @@ func TestVerifC18(t *testing.T) { c18Main("store", 1) }
 // genesis boundary, not the history length).
 func TestVerifC18Init(t *testing.T) { c18Main("init", 1000) }
 
+// TestVerifC18Checkpoint: the same histories on a chain that starts at 99998, so that its third block is height 100000, where the
+// state store writes a full validator-set checkpoint; the validator set changes right behind it (at the fourth and sixth block).
+func TestVerifC18Checkpoint(t *testing.T) { c18Main("checkpoint", 99998) }
+
 func c18Main(part string, initial int64) {
 	c18Init = initial
 	r := vr.Start("C18", part, 140*time.Second, 22*time.Minute)
@@ -481,7 +485,7 @@ func c18Main(part string, initial int64) {
 	n := vr.Pick(7, 9)
 	if initial != 1 {
 		n = vr.Pick(5, 7)
-		r.Assume("heights in cases are relative to the first block; the chain starts at height 1000")
+		r.Assume(fmt.Sprintf("heights in cases are relative to the first block; the chain starts at height %d", initial))
 	}
 	env := &c18Env{}
 	if rep, skip := r.ReplayCase(&rc); skip {
